@@ -1,0 +1,11 @@
+//go:build verif
+
+package execenv
+
+// Printing to the command's output touches nothing the contracts talk about.
+// Comment-only file: it is compiled only with -tags verif and contains no code.
+
+//@ func Out.Println
+//@ func Out.Printf
+//@ func Out.Print
+//@   modifies nothing
